@@ -1,5 +1,7 @@
+pub mod alloc_ctl;
 pub mod api;
 pub mod bfs;
+pub mod bulk;
 pub mod cli;
 pub mod gen;
 pub mod hist;
@@ -20,4 +22,35 @@ pub fn replay_other(mode: &str, rp: &serde_json::Value, a: &cli::Args, sink: &mu
             2
         }
     }
+}
+
+pub fn worker_main() {
+    use std::io::Write;
+    let args: Vec<String> = std::env::args().skip(1).collect();
+    if args.is_empty() {
+        eprintln!("usage: worker <mode> key=value ...");
+        std::process::exit(2);
+    }
+    let mode = args[0].clone();
+    let mut kv = std::collections::BTreeMap::new();
+    for a in &args[1..] {
+        if let Some((k, v)) = a.split_once('=') {
+            kv.insert(k.to_string(), v.to_string());
+        }
+    }
+    types::install_panic_hook();
+    let a = cli::Args { kv };
+    let code = match mode.as_str() {
+        "hist" => cli::mode_hist(&a),
+        "replay" => cli::mode_replay(&a),
+        "bfs" => bfs::mode_bfs(&a),
+        "iters" => iters::mode_iters(&a),
+        "bulk" => bulk::mode_bulk(&a),
+        other => {
+            eprintln!("unknown mode {}", other);
+            2
+        }
+    };
+    std::io::stdout().flush().ok();
+    std::process::exit(code);
 }
